@@ -128,6 +128,8 @@ func (x *c02Exec) sampleGo(u int) {
 			r.foreign++
 			continue
 		}
+		// the entry describes ITS event: name and kind of the plan node the state id names
+		descOK := evn == c02EvName(x.plan, un.ci, node) && strings.Join(te.Event.Kind(), ".") == strings.Join(c02EvKind(x.plan, un.ci, node), ".")
 		// attribution: the monitor of the entry is finished, reports the same error object, and its
 		// event path is the chain of plan events from the unit's root to this event
 		// (monitorBase.Errors / EventPath / EventPathString / TaskError.Error are asserting
@@ -146,6 +148,9 @@ func (x *c02Exec) sampleGo(u int) {
 				if !attributed {
 					cl = "?path"
 				}
+				if !descOK {
+					cl = "?desc"
+				}
 			}
 			es = append(es, c02Ent{node, k, cl})
 		}
@@ -158,7 +163,7 @@ func (x *c02Exec) sampleGo(u int) {
 func c02PlanPath(plan *c02Plan, un c02Unit, node int) string {
 	var names []string
 	for n := node; ; n = plan.cascs[un.ci].nodes[n].parent {
-		names = append([]string{fmt.Sprintf("c%dn%d", un.ci, n)}, names...)
+		names = append([]string{c02EvName(plan, un.ci, n)}, names...)
 		if n == un.root || plan.cascs[un.ci].nodes[n].parent < 0 {
 			break
 		}
@@ -191,13 +196,17 @@ func (x *c02Exec) sampleEcal(u int, val interface{}) {
 		evm, _ := im["event"].(map[interface{}]interface{})
 		evn := fmt.Sprint(evm["name"])
 		node := -1
-		if i := strings.Index(evn, "n"); i >= 0 {
-			node, _ = strconv.Atoi(evn[i+1:])
+		if sm, ok := evm["state"].(map[interface{}]interface{}); ok {
+			if f, ok := sm["id"].(float64); ok {
+				node = int(f)
+			}
 		}
 		if !strings.HasPrefix(evn, pre) || node < 0 || node >= len(x.plan.cascs[un.ci].nodes) || x.plan.cascs[un.ci].nodes[node].unit != u {
 			r.foreign++
 			continue
 		}
+		// the descriptor of the entry is the descriptor of ITS event: name, kind, state
+		descOK := evn == c02EvName(x.plan, un.ci, node) && fmt.Sprint(evm["kind"]) == strings.Join(c02EvKind(x.plan, un.ci, node), ".")
 		em, _ := im["errors"].(map[interface{}]interface{})
 		for rk, rv := range em {
 			rule := fmt.Sprint(rk)
@@ -212,6 +221,9 @@ func (x *c02Exec) sampleEcal(u int, val interface{}) {
 				} else if fmt.Sprint(d["data"]) == "R"+rule {
 					cl = "r" // the sink ended in `return "R<rule>"`
 				}
+				if cl != "?" && !descOK {
+					cl = "?desc"
+				}
 			}
 			es = append(es, c02Ent{node, k, cl})
 		}
@@ -221,6 +233,15 @@ func (x *c02Exec) sampleEcal(u int, val interface{}) {
 }
 
 func (x *c02Exec) block(rule byte) {
+	if rule == 'P' {
+		// an action parked for 2.2 s (thorough tier): a wait that gives up earlier returns while it runs
+		x.st.count("action parked for 2.2 s")
+		for i := 0; i < 22; i++ {
+			time.Sleep(100 * time.Millisecond)
+			atomic.AddInt64(&c02Clock, 1) // progress: the case is not stuck
+		}
+		return
+	}
 	if rule == 'O' || rule == 'X' {
 		x.st.count("blocking action")
 		time.Sleep(time.Duration(150+x.st.rngIntn(600)) * time.Microsecond)
@@ -242,10 +263,16 @@ func (x *c02Exec) goAction(proc engine.Processor, ci, ni, k int) engine.RuleActi
 	n := &plan.cascs[ci].nodes[ni]
 	rname := fmt.Sprintf("c%dn%dr%d", ci, ni, k)
 	return func(p engine.Processor, m engine.Monitor, e *engine.Event, tid uint64) error {
+		// the rule may serve several events (twins): which plan node is this one?
+		ni := ni
+		n := n
+		if a := c02EventNode(e); a != ni && a < len(plan.cascs[ci].nodes) && plan.cascs[ci].nodes[a].twin == ni {
+			ni = a
+			n = &plan.cascs[ci].nodes[a]
+		}
 		for _, ch := range n.children[k] {
 			cn := &plan.cascs[ci].nodes[ch]
-			cname := fmt.Sprintf("c%dn%d", ci, ch)
-			ev := engine.NewEvent(cname, []string{cname}, nil)
+			ev := c02Event(plan, ci, ch)
 			switch cn.link {
 			case 'c':
 				prio := 0
@@ -335,16 +362,19 @@ func (x *c02Exec) runGo() (bool, string) {
 	st, plan := x.st, x.plan
 	proc := engine.NewProcessor(plan.workers)
 	proc.SetFailOnFirstErrorInTriggerSequence(plan.failFirst)
-	proc.ThreadPool().TooManyCallback = func() {}
 	var zFired int64
 	for ci := range plan.cascs {
 		c := &plan.cascs[ci]
 		for ni := range c.nodes {
 			n := &c.nodes[ni]
+			if n.twin >= 0 {
+				continue // served by the rules of its twin
+			}
 			kind := fmt.Sprintf("c%dn%d", ci, ni)
+			km := strings.Join(c02EvKind(plan, ci, ni), ".")
 			switch n.kind {
 			case 'z':
-				check(proc.AddRule(&engine.Rule{Name: kind + "z", KindMatch: []string{kind}, ScopeMatch: []string{},
+				check(proc.AddRule(&engine.Rule{Name: kind + "z", KindMatch: []string{km}, ScopeMatch: []string{},
 					StateMatch: map[string]interface{}{"never": "x"}, Priority: 0,
 					Action: func(p engine.Processor, m engine.Monitor, e *engine.Event, tid uint64) error {
 						atomic.AddInt64(&zFired, 1)
@@ -352,7 +382,7 @@ func (x *c02Exec) runGo() (bool, string) {
 					}}))
 			case 't':
 				for k := range n.rules {
-					check(proc.AddRule(&engine.Rule{Name: fmt.Sprintf("%sr%d", kind, k), KindMatch: []string{kind},
+					check(proc.AddRule(&engine.Rule{Name: fmt.Sprintf("%sr%d", kind, k), KindMatch: []string{km},
 						ScopeMatch: []string{}, Priority: k, Action: x.goAction(proc, ci, ni, k)}))
 				}
 			}
@@ -374,18 +404,25 @@ func (x *c02Exec) runGo() (bool, string) {
 			continue
 		}
 		r := x.res[u]
-		rm := proc.NewRootMonitor(nil, nil)
-		r.rm = rm
+		// R0: AddEventAndWait(ev, nil) creates the root monitor itself (triggering root events only:
+		// for a discarded event nothing comes back to look at)
+		nilRoot := plan.nilRoot && un.mode == 'w' && plan.cascs[un.ci].nodes[0].kind != 's'
+		var rm *engine.RootMonitor
 		atomic.StoreInt32(&r.started, 1)
-		st.mu.Lock()
-		st.bind(rm.ID(), u)
-		st.handed[u] = append(st.handed[u], rm)
-		st.mu.Unlock()
-		name := fmt.Sprintf("c%dn0", un.ci)
-		ev := engine.NewEvent(name, []string{name}, nil)
+		if !nilRoot {
+			rm = proc.NewRootMonitor(nil, nil)
+			r.rm = rm
+			st.mu.Lock()
+			st.bind(rm.ID(), u)
+			st.handed[u] = append(st.handed[u], rm)
+			st.mu.Unlock()
+		} else {
+			st.count("AddEventAndWait with nil monitor")
+		}
+		ev := c02Event(plan, un.ci, 0)
 		done := make(chan struct{})
 		hdone := make(chan struct{}, 8)
-		if un.mode == 'a' || !plan.noHandler {
+		if !nilRoot && (un.mode == 'a' || !plan.noHandler) {
 			rm.SetFinishHandler(func(p engine.Processor) {
 				atomic.AddInt64(&r.handler, 1)
 				hdone <- struct{}{}
@@ -398,7 +435,25 @@ func (x *c02Exec) runGo() (bool, string) {
 				st.mu.Lock()
 				st.goCasc[c02Goid()] = u
 				st.mu.Unlock()
-				if un.mode == 'w' {
+				if nilRoot {
+					gid := c02Goid()
+					st.mu.Lock()
+					st.expect[gid] = u
+					st.mu.Unlock()
+					m, err := proc.AddEventAndWait(ev, nil)
+					if err != nil || m == nil {
+						return
+					}
+					rm = m.RootMonitor()
+					r.rm = rm
+					st.mu.Lock()
+					delete(st.expect, gid)
+					if _, ok := st.rootOf[rm.ID()]; !ok {
+						st.bind(rm.ID(), u)
+					}
+					st.handed[u] = append(st.handed[u], rm)
+					st.mu.Unlock()
+				} else if un.mode == 'w' {
 					if _, err := proc.AddEventAndWait(ev, rm); err != nil {
 						return
 					}
@@ -522,39 +577,45 @@ func c02FnResult(is map[string]interface{}, args []interface{}) (interface{}, er
 
 func c02EcalSource(plan *c02Plan) string {
 	var sb strings.Builder
-	sb.WriteString("c02loaded := 1\nfunc c02add(n) {\n addEvent(n, n, {})\n}\n")
+	sb.WriteString("c02loaded := 1\nfunc c02add(n, k, i) {\n addEvent(n, k, {\"id\": i})\n}\n")
 	for ci := range plan.cascs {
 		c := &plan.cascs[ci]
 		for ni := range c.nodes {
 			n := &c.nodes[ni]
+			if n.twin >= 0 {
+				continue // served by the sinks of its twin
+			}
 			kind := fmt.Sprintf("c%dn%d", ci, ni)
+			km := strings.Join(c02EvKind(plan, ci, ni), ".")
 			switch n.kind {
 			case 'z':
-				fmt.Fprintf(&sb, "sink %sz\n kindmatch [\"%s\"],\n statematch {\"never\": \"x\"},\n priority 0\n{\n x.c02stamp(%d, %d, 99, 1, 0)\n}\n", kind, kind, n.unit, ni)
+				fmt.Fprintf(&sb, "sink %sz\n kindmatch [\"%s\"],\n statematch {\"never\": \"x\"},\n priority 0\n{\n x.c02stamp(%d, %d, 99, 1, 0)\n}\n", kind, km, n.unit, ni)
 			case 't':
 				for k := range n.rules {
-					fmt.Fprintf(&sb, "sink %sr%d\n kindmatch [\"%s\"],\n priority %d\n{\n", kind, k, kind, k)
+					fmt.Fprintf(&sb, "sink %sr%d\n kindmatch [\"%s\"],\n priority %d\n{\n", kind, k, km, k)
 					for _, ch := range n.children[k] {
 						cn := &c.nodes[ch]
-						cname := fmt.Sprintf("c%dn%d", ci, ch)
+						cname := c02EvName(plan, ci, ch)
+						ck := strings.Join(c02EvKind(plan, ci, ch), ".")
 						switch cn.link {
 						case 'c':
-							fmt.Fprintf(&sb, " addEvent(\"%s\", \"%s\", {})\n", cname, cname)
+							fmt.Fprintf(&sb, " addEvent(\"%s\", \"%s\", {\"id\": %d})\n", cname, ck, ch)
 						case 'n':
-							fmt.Fprintf(&sb, " x.c02expect(%d)\n x.c02result(%d, addEventAndWait(\"%s\", \"%s\", {}))\n", cn.unit, cn.unit, cname, cname)
+							fmt.Fprintf(&sb, " x.c02expect(%d)\n x.c02result(%d, addEventAndWait(\"%s\", \"%s\", {\"id\": %d}))\n", cn.unit, cn.unit, cname, ck, ch)
 						case 'l':
-							fmt.Fprintf(&sb, " x.c02expect(%d)\n for c02i in range(1, 1) {\n  addEvent(\"%s\", \"%s\", {})\n }\n", cn.unit, cname, cname)
+							fmt.Fprintf(&sb, " x.c02expect(%d)\n for c02i in range(1, 1) {\n  addEvent(\"%s\", \"%s\", {\"id\": %d})\n }\n", cn.unit, cname, ck, ch)
 						case 'u':
-							fmt.Fprintf(&sb, " x.c02expect(%d)\n c02add(\"%s\")\n", cn.unit, cname)
+							fmt.Fprintf(&sb, " x.c02expect(%d)\n c02add(\"%s\", \"%s\", %d)\n", cn.unit, cname, ck, ch)
 						default:
-							fmt.Fprintf(&sb, " x.c02expect(%d)\n addEvent(\"%s\", \"%s\", {}, {\"\": true})\n", cn.unit, cname, cname)
+							fmt.Fprintf(&sb, " x.c02expect(%d)\n addEvent(\"%s\", \"%s\", {\"id\": %d}, {\"\": true})\n", cn.unit, cname, ck, ch)
 						}
 					}
 					ok := 1
 					if c02Fails(n.rules[k]) {
 						ok = 0
 					}
-					fmt.Fprintf(&sb, " x.c02stamp(%d, %d, %d, %d, %d)\n", n.unit, ni, k, ok, n.rules[k])
+					// the node is read from the event (the sink may serve several events)
+					fmt.Fprintf(&sb, " x.c02stamp(%d, event.state.id, %d, %d, %d)\n", n.unit, k, ok, n.rules[k])
 					switch n.rules[k] {
 					case 'x', 'X':
 						fmt.Fprintf(&sb, " raise(\"c02\", \"E%sr%d\")\n", kind, k)
@@ -576,7 +637,6 @@ func (x *c02Exec) runEcal() (bool, string) {
 	erp.Cron.Stop()
 	proc := erp.Processor
 	proc.SetFailOnFirstErrorInTriggerSequence(plan.failFirst)
-	proc.ThreadPool().TooManyCallback = func() {}
 	if !plan.noErrObs {
 		proc.SetRootMonitorErrorObserver(x.errObserver())
 	}
@@ -606,7 +666,7 @@ func (x *c02Exec) runEcal() (bool, string) {
 		}
 		r := x.res[u]
 		atomic.StoreInt32(&r.started, 1)
-		call, err := parser.ParseWithRuntime("c02call", fmt.Sprintf("addEventAndWait(\"c%dn0\", \"c%dn0\", {})", un.ci, un.ci), erp)
+		call, err := parser.ParseWithRuntime("c02call", fmt.Sprintf("addEventAndWait(\"c%dn0\", \"c%d.n0\", {\"id\": 0})", un.ci, un.ci), erp)
 		if err == nil {
 			err = call.Runtime.Validate()
 		}
@@ -702,7 +762,7 @@ func c02Run(payload string) string {
 			hf := fmt.Sprintf("handler=%d fin=%d/%d", atomic.LoadInt64(&r.handler), r.fin, r.handed)
 			if plan.ecal {
 				hf = "handler=- fin=-"
-			} else if plan.noHandler && un.mode == 'w' {
+			} else if (plan.noHandler || plan.nilRoot && plan.cascs[un.ci].nodes[0].kind != 's') && un.mode == 'w' {
 				hf = fmt.Sprintf("handler=- fin=%d/%d", r.fin, r.handed)
 			}
 			out = append(out, fmt.Sprintf("ret=1 early=%d %s errs=%s foreign=%d nil=%d", early, hf, e, r.foreign, nl))
